@@ -134,28 +134,40 @@ func (s *Server) servePacket(pc net.PacketConn) error {
 			if pkt.err != nil {
 				return pkt.err
 			}
-			conn, ok := udpConns[pkt.addr.String()]
-			if !ok {
-				// No existing proxy handler is running for this downstream.
-				// Create one now.
-				conn = &packetConn{
-					PacketConn: pc,
-					readCh:     make(chan *packet, 5),
-					addr:       pkt.addr,
-					closeCh:    closeCh,
+			for delivered := false; !delivered; {
+				conn, ok := udpConns[pkt.addr.String()]
+				if !ok {
+					// No existing proxy handler is running for this downstream.
+					// Create one now.
+					conn = &packetConn{
+						PacketConn: pc,
+						readCh:     make(chan *packet, 5),
+						done:       make(chan struct{}),
+						addr:       pkt.addr,
+						closeCh:    closeCh,
+					}
+					udpConns[pkt.addr.String()] = conn
+					go func(conn *packetConn) {
+						s.handle(conn)
+						// It might seem cleaner to send to closeCh here rather than
+						// in packetConn, but doing it earlier in packetConn closes
+						// the gap between the proxy handler shutting down and new
+						// packets coming in from the same downstream.  Should that
+						// happen, we'll just spin up a new handler concurrent to
+						// the old one shutting down.
+					}(conn)
 				}
-				udpConns[pkt.addr.String()] = conn
-				go func(conn *packetConn) {
-					s.handle(conn)
-					// It might seem cleaner to send to closeCh here rather than
-					// in packetConn, but doing it earlier in packetConn closes
-					// the gap between the proxy handler shutting down and new
-					// packets coming in from the same downstream.  Should that
-					// happen, we'll just spin up a new handler concurrent to
-					// the old one shutting down.
-				}(conn)
+				select {
+				case conn.readCh <- &pkt:
+					delivered = true
+				case <-conn.done:
+					// The handler for this downstream has just finished and closed
+					// its connection, but the closure notification has not been
+					// processed yet. Forget the stale connection and hand the
+					// packet to a fresh one.
+					delete(udpConns, pkt.addr.String())
+				}
 			}
-			conn.readCh <- &pkt
 		}
 	}
 }
@@ -236,6 +248,10 @@ type packetConn struct {
 	addr    net.Addr
 	readCh  chan *packet
 	closeCh chan string
+	// done is closed by Close(); readCh itself is never closed, so that the
+	// server loop cannot panic by sending to a connection that has just ended
+	done      chan struct{}
+	closeOnce sync.Once
 	// If not nil, then the previous Read() call didn't consume all the data
 	// from the buffer, and this packet will be reused in the next Read()
 	// without waiting for readCh.
@@ -306,12 +322,10 @@ func (pc *packetConn) Read(b []byte) (n int, err error) {
 	var done bool
 	for !done {
 		select {
+		case <-pc.done:
+			// Connection is closed. Return EOF below.
+			done = true
 		case pkt := <-pc.readCh:
-			if pkt == nil {
-				// Channel is closed. Return EOF below.
-				done = true
-				break
-			}
 			buf := bytes.NewReader(pkt.pooledBuf[:pkt.n])
 			n, err = buf.Read(b)
 			if buf.Len() == 0 {
@@ -356,10 +370,16 @@ func (pc *packetConn) Close() error {
 		pc.lastPacket = nil
 	}
 	// This will abort any active Read() from another goroutine and return EOF
-	close(pc.readCh)
+	pc.closeOnce.Do(func() { close(pc.done) })
 	// Drain pending packets to ensure we release buffers back to the pool
-	for pkt := range pc.readCh {
-		udpBufPool.Put(pkt.pooledBuf)
+drain:
+	for {
+		select {
+		case pkt := <-pc.readCh:
+			udpBufPool.Put(pkt.pooledBuf)
+		default:
+			break drain
+		}
 	}
 	// We may have already done this earlier in Read(), but just in case
 	// Read() wasn't being called, (re-)notify server loop we're closed.
